@@ -90,7 +90,7 @@ def facts_path(src_root=None, config="default", crate="redirectionio"):
     return out
 
 
-def _prune(crate, config, keep, maxn=6):
+def _prune(crate, config, keep, maxn=24):
     pats = sorted(glob.glob(os.path.join(CACHE, "facts-%s-%s-*.json" % (crate, config))), key=os.path.getmtime)
     for p in pats[:-maxn]:
         if p != keep:
